@@ -53,6 +53,14 @@ Section Stages.
     intros i u k Hk. destruct k as [|[|[|k]]]; try reflexivity. lia.
   Qed.
 
+  (* every stage of every replica moves with the user's maximum step size (C19) *)
+  Theorem cli_stage_max_step : forall fpow (i : N) (u : sbuilder NN) (k : nat),
+    (k < 3)%nat ->
+    max_step NN (build NN fpow (stage_b k i u)) = b_max_step NN (sb NN u).
+  Proof.
+    intros fpow i u k Hk. destruct k as [|[|[|k]]]; try reflexivity. lia.
+  Qed.
+
   (* stage 1 as built: exactly 1000 proposals' worth of loops, no early exit *)
   Theorem cli_stage1_built : forall fpow (i : N) (u : sbuilder NN),
     let c := build NN fpow (stage_b 0%nat i u) in
